@@ -2,7 +2,7 @@
    generated case files, `mismatches` (model run vs observed run), `spec_violations` (the property's boolean oracle on
    the observed logs and states alone).  Executable definitions only. *)
 From Coq Require Import List ZArith Bool String Ascii.
-From Qryn Require Import model.Rotate model.RotateCfg.
+From Qryn Require Import model.Rotate model.RotateCfg model.RotateConc.
 Import ListNotations.
 Open Scope string_scope.
 Open Scope Z_scope.
@@ -37,11 +37,19 @@ Record orun := {
   r_ttl : list string;          (* TTL of the seven tables after the run, in the order of all_tables *)
   r_policy : list string;
   r_settings : list (Z * string) }.
+(* observed concurrent instances (real Rotate goroutines on one connection, statements granted one at a time) *)
+Record oconc := {
+  cc_cfgs : list config;
+  cc_eff : list nat;                        (* the instance of every granted statement, in order *)
+  cc_log : list (nat * ocall);
+  cc_errs : list bool;
+  cc_ttl : list string; cc_policy : list string; cc_settings : list (Z * string) }.
 Record case := {
   c_id : Z;
   c_init : list (Z * string);               (* settings rows before the first run *)
   c_init_ttl : list string; c_init_policy : list string;   (* table state before the first run, order of all_tables *)
-  c_runs : list orun }.
+  c_runs : list orun;
+  c_conc : option oconc }.                  (* after the runs: concurrent instances *)
 
 Fixpoint lookup (l : list (Z * string)) (k : Z) : string :=
   match l with [] => "" | (k', v) :: r => if k =? k' then v else lookup r k end.
@@ -86,12 +94,28 @@ Definition run_matches (d : db) (r : orun) : bool * db :=
   let '(l, ok, d', agree) := model_run d r in
   (list_eqb ocall_eqb l (r_log r) && Bool.eqb (negb ok) (r_err r) && state_eqb d' r && agree, d').
 
-Fixpoint runs_match (d : db) (rs : list orun) : bool :=
+Fixpoint runs_match (d : db) (rs : list orun) : bool * db :=
   match rs with
-  | [] => true
-  | r :: rest => let '(b, d') := run_matches d r in b && runs_match d' rest
+  | [] => (true, d)
+  | r :: rest => let '(b, d') := run_matches d r in let '(b', d'') := runs_match d' rest in (b && b', d'')
   end.
-Definition model_mismatch (c : case) : bool := negb (runs_match (init_db c) (c_runs c)).
+
+(* the concurrent part: the model's scheduler on the granted sequence = the observed interleaved log, every
+   instance finished, final state *)
+Definition conc_as_run (o : oconc) : orun :=
+  {| r_cfg := {| cluster := ""; distributed := false; days := []; drop_days := 0; storage_policy := "" |};
+     r_fault := None; r_kind := KDirect; r_parse := []; r_log := []; r_err := false;
+     r_ttl := cc_ttl o; r_policy := cc_policy o; r_settings := cc_settings o |}.
+Definition conc_matches (d : db) (o : oconc) : bool :=
+  let s := sched_run (cc_eff o) (init_sys d (cc_cfgs o)) in
+  list_eqb (fun a b => Nat.eqb (fst a) (fst b) && ocall_eqb (snd a) (snd b))
+           (map (render_conc (cc_cfgs o)) (rev (s_log s))) (cc_log o) &&
+  all_done s && forallb negb (cc_errs o) && Nat.eqb (List.length (cc_errs o)) (List.length (cc_cfgs o)) &&
+  state_eqb (s_db s) (conc_as_run o).
+
+Definition model_mismatch (c : case) : bool :=
+  let '(b, d) := runs_match (init_db c) (c_runs c) in
+  negb (b && match c_conc c with None => true | Some o => conc_matches d o end).
 
 (* ------------------------------------------------------------------ the property's oracle on observed runs *)
 (* text helpers *)
@@ -300,7 +324,23 @@ Fixpoint runs_ok (start_consistent : bool) (prev_done : option config) (rs : lis
     | _, _ => runs_ok start_consistent None rest
     end
   end.
-Definition spec_violation (c : case) : bool := negb (runs_ok (consistent_b (init_db c)) None (c_runs c)).
+(* concurrent instances, on the observations alone: every TTL statement respects the minima and carries the tiers of
+   its instance's configuration; within each instance's own statements a record comes after the ALTERs of its group;
+   no instance reports an error; and when all instances have the same configuration (and the history started from a
+   database whose records name only applied values) every table carries that configuration in the end *)
+Definition conc_ok (start_consistent : bool) (o : oconc) : bool :=
+  forallb (fun e => tier_min_obs (snd e)) (cc_log o) &&
+  forallb (fun e => match nth_error (cc_cfgs o) (fst e) with Some c => tier_cfg_obs c (snd e) | None => false end) (cc_log o) &&
+  forallb (fun k => record_after_all_obs [] (map snd (filter (fun e => Nat.eqb (fst e) k) (cc_log o))))
+          (seq 0 (List.length (cc_cfgs o))) &&
+  forallb negb (cc_errs o) &&
+  match cc_cfgs o with
+  | [] => true
+  | c :: r => negb (forallb (config_eqb c) r) || negb start_consistent || applied_b c (obs_db (conc_as_run o))
+  end.
+Definition spec_violation (c : case) : bool :=
+  let sc := consistent_b (init_db c) in
+  negb (runs_ok sc None (c_runs c) && match c_conc c with None => true | Some o => conc_ok sc o end).
 
 Definition mismatches (cs : list case) : list Z := map c_id (filter model_mismatch cs).
 Definition spec_violations (cs : list case) : list Z := map c_id (filter spec_violation cs).
